@@ -142,30 +142,35 @@ def accept_item(item):
         acc.count('transitions', len(s.client.log))
         acc.count('evaluations')
         rec = {'kind': 'accept', 'url': url, 'mode': mode, 'now': clock, 'opts': opts, 'mps': mps, 'template': template}
-        media = sum(1 for _, k, _, st in s.client.log if k == 'media' and st in (200, 206))
-        if media:
-            acc.nontriv((url, clock))
-        acc.outcome(('accept', mode, 'errors' if s.errors else 'clean', 'finished' if s.finished else 'unfinished'))
-        if s.client.exceptions:
-            # a 5xx of the server inside the session is the server's defect (C16); recorded, the validator is judged on
-            # what it was given
-            acc.outcome(('server-exception', s.client.exceptions[0][1]))
-        if s.crash:
-            acc.violation(sig('accept', 'validator-exception', s.crash, mode),
-                          f'{url} at {clock}: the validator raised {s.crash}', rec)
-            continue
-        seen = set()
-        for e in s.errors:
-            k = sig('accept', 'false-error', err_site(e), mode, msg_class(e))
-            if k in seen:
-                continue
-            seen.add(k)
-            acc.violation(k, f'{url} at {clock}: validator reports "{str(e)[:200]}" on pristine server output', rec)
-        if not s.errors and not s.finished:
-            acc.violation(sig('accept', 'does-not-terminate', mode, window_class(probe.body)),
-                          f'{url} at {clock}: not finished after {s.rounds} validate/refresh rounds '
-                          f'({len(s.client.log)} requests)', rec)
+        judge_pristine(acc, s, url, mode, clock, probe.body, rec)
     return acc
+
+
+def judge_pristine(acc, s, url, mode, clock, manifest_body, rec):
+    """A session on unmodified server output: terminates, raises nothing, reports nothing."""
+    media = sum(1 for _, k, _, st in s.client.log if k == 'media' and st in (200, 206))
+    if media:
+        acc.nontriv((url, str(clock)))
+    acc.outcome(('accept', mode, 'errors' if s.errors else 'clean', 'finished' if s.finished else 'unfinished'))
+    if s.client.exceptions:
+        # a 5xx of the server inside the session is the server's defect (C16); recorded, the validator is judged on
+        # what it was given
+        acc.outcome(('server-exception', s.client.exceptions[0][1]))
+    if s.crash:
+        acc.violation(sig('accept', 'validator-exception', s.crash, mode),
+                      f'{url} at {clock}: the validator raised {s.crash}', rec)
+        return
+    seen = set()
+    for e in s.errors:
+        k = sig('accept', 'false-error', err_site(e), mode, msg_class(e))
+        if k in seen:
+            continue
+        seen.add(k)
+        acc.violation(k, f'{url} at {clock}: validator reports "{str(e)[:200]}" on pristine server output', rec)
+    if not s.errors and not s.finished:
+        acc.violation(sig('accept', 'does-not-terminate', mode, window_class(manifest_body)),
+                      f'{url} at {clock}: not finished after {s.rounds} validate/refresh rounds '
+                      f'({len(s.client.log)} requests)', rec)
 
 
 # ---------------------------------------------------------------------------
@@ -409,7 +414,13 @@ def detect_item(item):
     base = session(w, url, mode, opts, NOW)
     acc.count('traces')
     if base.errors or base.crash or not base.finished:
-        # the base session itself is not clean: the accept side reports that; nothing can be judged against it
+        # the base session itself is not clean: that is an accept-side violation (reported once, by the first chunk);
+        # nothing can be judged against it
+        if lo == 0:
+            first = base.client.manifest_texts[0].encode('utf-8') if base.client.manifest_texts else b''
+            judge_pristine(acc, base, url, mode, crawl.iso(NOW), first,
+                           {'kind': 'accept', 'url': url, 'mode': mode, 'now': crawl.iso(NOW), 'opts': opts, 'mps': url.startswith('/mps'),
+                            'template': url.split('/')[-1].split('.')[0]})
         acc.outcome(('base-not-clean', name))
         acc.notes.setdefault('detect_bases_not_clean', {})[name] = [str(e)[:160] for e in base.errors[:3]] or [str(base.crash)]
         return acc
@@ -503,6 +514,12 @@ def plan(tier):
                 if primary and (tier != 'quick' or len(o) == 0 or set(o) & {'timeline', 'drm', 'events', 'depth'}):
                     for stream in ('tears',):
                         items.append(('plain', stream, template, mode, o, CLOCKS[:1], tier))
+    # sessions that have to refresh: timelines, with and without patches (three deviations from the defaults)
+    for stream in ('bbb', 'tears'):
+        for template in ('hand_made', 'manifest_e'):
+            for o in ({'depth': '8', 'timeline': '1'}, {'depth': '8', 'timeline': '1', 'patch': '1'},
+                      {'depth': '16', 'timeline': '1', 'patch': '1'}, {'depth': '8', 'timeline': '1', 'patch': '1', 'mup': '2'}):
+                items.append(('plain', stream, template, 'live', o, CLOCKS[:1], tier))
     for mode in ('live', 'vod'):
         for o in ({}, {'timeline': '1'}, {'depth': '8'}, {'depth': '20', 'timeline': '1'}, {'events': 'ping'}):
             oo = dict(o)
